@@ -57,6 +57,8 @@ def cases(draw):
         "per_tensor_w": draw(st.integers(0, 5)) == 0,
         "act_axis": draw(st.sampled_from([None, None, None, None, 0, -1])),  # quantized activations may also be per-axis
         "wlayout": draw(st.sampled_from(["contig", "contig", "colmajor", "expanded"])),
+        "sign": draw(st.sampled_from(["mixed", "mixed", "one-sided"])),
+        "w_axis": draw(st.sampled_from([0, 0, 0, -1])),  # 8-bit weights quantized along the input features (real mode)
         "seed": draw(st.integers(0, 2**20)),
     }
 
@@ -177,7 +179,11 @@ def build(case):
         return x, w, b
     # realistic magnitudes
     mag = [1.0, 1.0, 0.05, 20.0][case["seed"] % 4]
-    x = gen.clamp_finite(torch.randn(bshape + [K], generator=g, dtype=torch.float64) * mag, dtype)
+    xr = torch.randn(bshape + [K], generator=g, dtype=torch.float64)
+    coherent = case.get("sign") == "one-sided"
+    if coherent:
+        xr = xr.abs()  # post-ReLU-like activations: the unscaled sum of codes grows like K, not like sqrt(K)
+    x = gen.clamp_finite(xr * mag, dtype)
     if case["layout"] == "expanded":
         x = x[:1].expand(x.shape).contiguous()
     if aq is not None:
@@ -195,11 +201,16 @@ def build(case):
     else:
         x = lay_out(x, case["layout"])
     rowf = 10.0 ** (torch.rand(N, 1, generator=g, dtype=torch.float64) * 2 - 1)
-    wf = gen.clamp_finite(torch.randn(N, K, generator=g, dtype=torch.float64) * 0.3 * rowf, dtype)
+    wr = torch.randn(N, K, generator=g, dtype=torch.float64)
+    if coherent:
+        # constant-sign, near-constant rows (a pooling / averaging layer): every code is close to +-127, small true outputs
+        wr = (0.9 + 0.1 * wr.abs().clamp(max=1)) * (1.0 / max(K, 1)) / 0.3
+        rowf = torch.ones_like(rowf)
+    wf = gen.clamp_finite(wr * 0.3 * rowf, dtype)
     if wqt.bits == 8 and (case["entry"] == "bmm" or case["per_tensor_w"]):
         w = wexpand(SymmetricQuantizer.apply(wsrc(wf, case), wqt, None, absmax_scale(wf, wqt)), case)
     elif wqt.bits == 8:
-        w = quantize_weight(wsrc(wf, case), wqt, 0)
+        w = quantize_weight(wsrc(wf, case), wqt, -1 if case.get("w_axis") == -1 and N > 1 else 0)
     else:
         divs = [None] + [d for d in (32, 64, 128, K // 2 if K % 2 == 0 else None) if d and K % d == 0 and d <= K]
         w = quantize_weight(wf, wqt, 0, divs[case["group"] % len(divs)])
@@ -268,6 +279,8 @@ def exec_case(case):
     entry = case["entry"]
     if isinstance(x, QBytesTensor) and x.axis is not None and entry in ("op", "routes", "bmm"):
         entry = "linear"  # the library op takes a scalar activation scale: per-axis activations only exist at the linear / mm level
+    if isinstance(w, QBytesTensor) and w.axis == -1 and entry in ("op", "routes"):
+        entry = "linear"  # the library op takes one scale per OUTPUT feature: weights quantized along the input features never reach it
     xk = "float" if not isinstance(x, QTensor) else ("qint8" if x.qtype.name == "qint8" else "qfloat8")
     wk = "qint8" if case["wq"] == "qint8" else ("qfloat8" if "float8" in case["wq"] else "lowbit")
     want_shape = tuple((x.shape[:-1])) + (case["outf"],)
@@ -351,10 +364,10 @@ def exec_case(case):
         out.fail(f"{entry}/{tagbase}/operands-modified", f"the operands dequantize to other values after the call than before it ({case['act']} x {case['wq']}, {case['dtype']})")
     taken = [k for k in ROUTES if ROUTES[k] != before.get(k, 0)]
     out.klass = [f"act-{xk}", f"w-{wk}", case["dtype"], f"entry-{entry}", f"mode-{case['mode']}"] + [f"route-{t}" for t in taken] + [
-        "rows>16" if case["rows"] > 16 else "rows<=16", f"inf%16={case['inf'] % 16 == 0}", f"layout-{case['layout']}", f"wlayout-{case.get('wlayout', 'contig')}"]
+        "rows>16" if case["rows"] > 16 else "rows<=16", f"inf%16={case['inf'] % 16 == 0}", f"layout-{case['layout']}", f"wlayout-{case.get('wlayout', 'contig')}", f"sign-{case.get('sign', 'mixed')}", f"waxis{case.get('w_axis', 0)}"]
     default = case["dtype"] == "fp32" and case["act"] == "float" and case["inf"] % 32 == 0 and case["inf"] == case["outf"]
     out.nontrivial = not default
-    out.fingerprint = [case[k] for k in ("dtype", "act", "wq", "rows", "brank", "inf", "outf", "bias", "mode", "entry", "layout")] + [case.get("act_axis"), case.get("wlayout")]
+    out.fingerprint = [case[k] for k in ("dtype", "act", "wq", "rows", "brank", "inf", "outf", "bias", "mode", "entry", "layout")] + [case.get("act_axis"), case.get("wlayout"), case.get("sign"), case.get("w_axis")]
     return out
 
 
